@@ -493,6 +493,45 @@ func TestC20(t *testing.T) {
 			ls.check("Client.Print(conflicting keytab entries)", w.Bytes())
 		})
 	}
+	// --- keytab clients whose keytab does not fit the login: made for another realm, for another spelling of the
+	// realm, for another principal, for another etype only, or empty: what Diagnostics, Print, a Login attempt
+	// and its log say
+	{
+		type oddKt struct {
+			name, princ, realm string
+			et                 int32
+		}
+		for _, o := range []oddKt{{"other-realm", c09User, "OTHER.REALM", 18}, {"lower-case-realm", c09User, strings.ToLower(c09Realm), 18},
+			{"other-principal", "someoneelse", c09Realm, 18}, {"two-component-principal", c09User + "/admin", c09Realm, 17}, {"rc4-only", c09User, c09Realm, 23}, {"empty", "", "", 0}} {
+			kt3 := keytab.New()
+			if o.et != 0 {
+				kt3.AddEntry(o.princ, o.realm, "odd-"+o.name+"-"+password, time.Unix(1600000000, 0), 2, o.et)
+				kt3.AddEntry(o.princ, o.realm, "odd2-"+o.name+"-"+password, time.Unix(1600000200, 0), 3, o.et)
+			}
+			for i, e := range kt3.Entries {
+				ls.secrets = append(ls.secrets, newSecret(fmt.Sprintf("odd-keytab-%s-key-%d", o.name, i), append([]byte{}, e.Key.KeyValue...)))
+			}
+			var lb bytes.Buffer
+			cl5 := client.NewWithKeytab(c09User, c09Realm, kt3, c09Config(5*time.Minute, 0), client.DisablePAFXFAST(true), client.Logger(log.New(&lb, "", 0)))
+			var w bytes.Buffer
+			surface := "keytab client (keytab: " + o.name + ")"
+			Protect(func() {
+				ls.err("Client.Diagnostics, "+surface, cl5.Diagnostics(&w))
+				ls.check("Client.Diagnostics output, "+surface, w.Bytes())
+				w.Reset()
+				cl5.Print(&w)
+				ls.check("Client.Print, "+surface, w.Bytes())
+				ls.err("Client.Login, "+surface, cl5.Login())
+				ls.err("Client.AffirmLogin, "+surface, cl5.AffirmLogin())
+				_, _, kerr := cl5.Key(mustEtype(18), 0, nil)
+				ls.err("Client.Key, "+surface, kerr)
+				_, _, kerr = cl5.Key(mustEtype(18), 7, nil)
+				ls.err("Client.Key(kvno 7), "+surface, kerr)
+				ls.check("client log, "+surface, lb.Bytes())
+				cl5.Destroy()
+			})
+		}
+	}
 	// --- password change: a peer that sends the client's own KRB-PRIV back as the "reply" (the request holds
 	// the new password; the reply is decrypted with the same subkey) ---
 	{
